@@ -71,7 +71,7 @@ pub fn algebra<const NA: usize, const NB: usize>(ia: usize, ib: usize, op: u8) {
         ($it:expr) => {{
             let mut it = $it;
             let mut j = 0;
-            while j < K + 1 {
+            while j < NA + NB {
                 let (lo, hi) = it.size_hint();
                 let rem = total - yielded;
                 assert!(lo <= rem);
@@ -108,7 +108,7 @@ pub fn algebra<const NA: usize, const NB: usize>(ia: usize, ib: usize, op: u8) {
 }
 
 /// is_subset / is_superset / is_disjoint / == give the mathematical answer; == is symmetric.
-pub fn predicates<const NA: usize, const NB: usize>() {
+pub fn predicates<const NA: usize, const NB: usize>(which: u8) {
     let (a, sa, _) = mk_set::<NA>(SYM, SYM);
     let (b, sb, _) = mk_set::<NB>(SYM, SYM);
     let ma = member(&sa);
@@ -129,11 +129,16 @@ pub fn predicates<const NA: usize, const NB: usize>() {
         }
         i += 1;
     }
-    assert!(a.is_subset(&b) == sub);
-    assert!(a.is_superset(&b) == sup);
-    assert!(a.is_disjoint(&b) == dis);
-    assert!((a == b) == (sub && sup));
-    assert!((b == a) == (a == b));
+    if which == 0 {
+        assert!(a.is_subset(&b) == sub);
+    } else if which == 1 {
+        assert!(a.is_superset(&b) == sup);
+    } else if which == 2 {
+        assert!(a.is_disjoint(&b) == dis);
+    } else {
+        assert!((a == b) == (sub && sup));
+        assert!((b == a) == (sub && sup));
+    }
     kani::cover!(sub && !sup, "strict subset");
     kani::cover!(sub && sup && sa.items > 0, "equal, different layouts");
     core::mem::forget(a);
